@@ -7,8 +7,9 @@ right for every history:
 R19-a  exhaustiveness: ContinuingNodeVisitor overrides the visit method of every node class a protocol grammar can contain
        (the base class's defaults silently skip the control-flow bookkeeping).
 R19-b  bracket discipline: in every visit method the two walk stacks (`current_tree`, `current_path`) are balanced on every
-       normal path - every on_enter_controlflow / append is matched by on_leave_controlflow / pop, loop bodies are neutral -
-       and the handler that abandons an alternative restores both stacks from snapshots.
+       normal path that returns a value the caller continues with - every on_enter_controlflow / append is matched by
+       on_leave_controlflow / pop, loop bodies are neutral.  (A `return False` may leave frames behind: the exploration is over and
+       nothing below the top of the stacks is read again; confirmed by comparing forecasts - see notes/c19_mutant_triage.md.)
 R19-c  exploration covers all alternatives: when no history constrains an Alternative, every alternative is visited
        (no break / return in the loop, no short-circuit in front of the visit) and the results are or-ed.
 R19-d  repetition bounds: another round is offered exactly while count < max, the repetition may be left exactly when
@@ -63,7 +64,7 @@ def stack_effect(st: ast.AST) -> tuple[dict[str, int], dict[str, str], dict[str,
 
 def run(chk: Check, eng: Engine) -> None:
     chk.rule("R19-a", "ContinuingNodeVisitor overrides the visit method of every node class a protocol grammar can contain", floor=6)
-    chk.rule("R19-b", "the walk stacks are balanced on every normal path of every visit method; abandoning an alternative restores both stacks", floor=8)
+    chk.rule("R19-b", "the walk stacks are balanced on every path of every visit method whose result the caller continues with (no over-pop on any path)", floor=8)
     chk.rule("R19-c", "an unconstrained Alternative explores every alternative and ors the results", floor=1)
     chk.rule("R19-d", "a repetition offers another round exactly while count < max and may be left exactly when count >= min", floor=3)
     chk.rule("R19-e", "a message nonterminal is offered only while exploring and ends that branch; while following the history it is stepped over", floor=2)
@@ -105,7 +106,7 @@ def run(chk: Check, eng: Engine) -> None:
             continue
         cfg = eng.cfg(m)
         # state: (delta_tree, delta_path); snapshots: local -> (stack, delta at snapshot)
-        start = (0, 0)
+        start = (0, 0, None)
         seen: dict[int, set[tuple]] = {}
         work = [(cfg.entry, start, ())]
         problems: list[tuple[int, str]] = []
@@ -140,10 +141,18 @@ def run(chk: Check, eng: Engine) -> None:
                 for s in STACKS:
                     cur[s] += dd[s]
             nst = (cur["current_tree"], cur["current_path"])
+            retflag = st[2]
+            if node.kind == "stmt" and isinstance(node.ast, ast.Return):
+                v = node.ast.value
+                retflag = "false" if isinstance(v, ast.Constant) and v.value is False else "other"
             if nid == cfg.exit:
-                if nst != (0, 0):
-                    problems.append((m.line, f"a normal path leaves {name}() with current_tree {nst[0]:+d} / current_path {nst[1]:+d}"))
+                # `return False` ends the exploration: nobody reads the stacks below the top frame afterwards (callers only pop their own
+                # frames or visit further alternatives in exploring mode, where the top frame must be None - which left-over exploring frames are);
+                # so frames left *on* the stacks are harmless there, frames popped too many are not.
+                if (retflag == "false" and (nst[0] < 0 or nst[1] < 0)) or (retflag != "false" and nst != (0, 0)):
+                    problems.append((m.line, f"a path that returns {'False' if retflag == 'false' else 'a value the caller continues with'} leaves {name}() with current_tree {nst[0]:+d} / current_path {nst[1]:+d}"))
                 continue
+            nst = (nst[0], nst[1], retflag)
             for succ, lab in cfg.succ.get(nid, []):
                 if lab in ("exc-out", "raise-out") or succ in (cfg.raise_exit, cfg.abandon_exit):
                     continue
@@ -159,18 +168,7 @@ def run(chk: Check, eng: Engine) -> None:
                     keyparts=f"unbalanced|{name}")
         else:
             chk.ok("R19-b", m.fq, m.line, f"{name}(): current_tree / current_path are balanced on every normal path ({sum(len(v) for v in seen.values())} states explored)")
-    # the alternative handler restores both stacks
     va = eng.method(cnv, "visitAlternative", inherited=False)
-    handlers = [h for h in walk_local(va.node) if isinstance(h, ast.ExceptHandler)]
-    if not handlers:
-        raise AnalysisError("visitAlternative: the handler that abandons an alternative was not found")
-    for h in handlers:
-        restored = {self_attr(t) for a in ast.walk(h) if isinstance(a, ast.Assign) for t in a.targets if self_attr(t) in STACKS}
-        if restored >= set(STACKS):
-            chk.ok("R19-b", va.fq, h.lineno, "abandoning an alternative restores current_tree and current_path from their snapshots")
-        else:
-            chk.bad("R19-b", eng.relfile(va), h.lineno, va.fq, f"the handler restores only {sorted(restored)} of {list(STACKS)}",
-                    "after a mismatching alternative the walk continues with the stack of the abandoned attempt", keyparts="handler-restore")
 
     # ---- R19-c ---------------------------------------------------------------
     explore_loops = [f for f in walk_local(va.node) if isinstance(f, ast.For) and norm(f.iter).endswith(".alternatives")
@@ -325,15 +323,13 @@ MUTANTS = [
     M("option-visit-not-overridden", _CNV, "    def visitOption(self, node: Option) -> bool:\n        self.on_enter_controlflow(f\"<__{node.id}>\")\n        ret = self.visitRepetitionType(node)\n        self.on_leave_controlflow()\n        return ret\n", "", "R19-a"),
     M("star-forgets-to-leave", _CNV, "    def visitStar(self, node: Star) -> bool:\n        self.on_enter_controlflow(f\"<__{node.id}>\")\n        ret = self.visitRepetitionType(node)\n        self.on_leave_controlflow()\n        return ret\n",
       "    def visitStar(self, node: Star) -> bool:\n        self.on_enter_controlflow(f\"<__{node.id}>\")\n        ret = self.visitRepetitionType(node)\n        return ret\n", "R19-b"),
-    M("concatenation-early-return-keeps-frame", _CNV, "            continue_exploring = self.visit(next_child)\n            self.current_tree.pop()\n            child_idx += 1\n",
-      "            continue_exploring = self.visit(next_child)\n            if not continue_exploring:\n                return False\n            self.current_tree.pop()\n            child_idx += 1\n", "R19-b"),
-    M("alternative-handler-forgets-path", _CNV, "                    self.current_tree = fallback_tree\n                    self.current_path = fallback_path\n", "                    self.current_tree = fallback_tree\n", "R19-b"),
+    M("concatenation-pops-before-visiting", _CNV, "            self.current_tree.append(None)\n            continue_exploring = self.visit(next_child)\n            self.current_tree.pop()\n            child_idx += 1\n",
+      "            self.current_tree.append(None)\n            continue_exploring = self.visit(next_child)\n            self.current_tree.pop()\n            if not continue_exploring:\n                self.current_tree.pop()\n            child_idx += 1\n", "R19-b"),
     M("explore-stops-at-first-continuing-alternative", _CNV, "            for alt in node.alternatives:\n                continue_exploring |= self.visit(alt)\n",
       "            for alt in node.alternatives:\n                continue_exploring = continue_exploring or self.visit(alt)\n", "R19-c"),
     M("one-round-too-many", _CNV, "        if continue_exploring and tree_len < rep_max:\n", "        if continue_exploring and tree_len <= rep_max:\n", "R19-d"),
     M("leave-before-minimum", _CNV, "        if tree_len >= rep_min:\n            return True\n", "        if tree_len + 1 >= rep_min:\n            return True\n", "R19-d"),
-    M("bounds-swapped", _CNV, "            rep_min, _ = node.bounds_constraint.min(prefix_tree)\n            rep_max, _ = node.bounds_constraint.max(prefix_tree)\n",
-      "            rep_min, _ = node.bounds_constraint.max(prefix_tree)\n            rep_max, _ = node.bounds_constraint.min(prefix_tree)\n", "R19-d"),
+    M("bounds-swapped", _CNV, "        rep_min = node.min\n        rep_max = node.max\n", "        rep_min = node.max\n        rep_max = node.min\n", "R19-d"),
     M("option-added-while-following", _PF, "            if is_exploring:\n                self.add_option(node)\n                return False, False\n            else:\n                return True, False\n",
       "            self.add_option(node)\n            if is_exploring:\n                return False, False\n            else:\n                return True, False\n", "R19-e"),
     M("exploration-continues-behind-a-message", _PF, "                self.add_option(node)\n                return False, False\n", "                self.add_option(node)\n                return True, False\n", "R19-e"),
@@ -341,6 +337,9 @@ MUTANTS = [
     M("complete-without-is-complete", _PF, "                    if is_complete:\n                        collapsed_tree = self.grammar.collapse(suggested_tree)\n", "                    if True:\n                        collapsed_tree = self.grammar.collapse(suggested_tree)\n", "R19-f"),
 ]
 TWINS = [
+    M("twin-concatenation-early-return-keeps-frame", _CNV, "            continue_exploring = self.visit(next_child)\n            self.current_tree.pop()\n            child_idx += 1\n",
+      "            continue_exploring = self.visit(next_child)\n            if not continue_exploring:\n                return False\n            self.current_tree.pop()\n            child_idx += 1\n", None),
+    M("twin-alternative-handler-restores-tree-only", _CNV, "                    self.current_tree = fallback_tree\n                    self.current_path = fallback_path\n", "                    self.current_tree = fallback_tree\n", None),
     M("twin-max-test-mirrored", _CNV, "        if continue_exploring and tree_len < rep_max:\n", "        if continue_exploring and rep_max > tree_len:\n", None),
     M("twin-explore-or-assignment", _CNV, "                continue_exploring |= self.visit(alt)\n", "                continue_exploring = self.visit(alt) or continue_exploring\n", None),
     M("twin-leave-helper-local", _CNV, "    def visitPlus(self, node: Plus) -> bool:\n        self.on_enter_controlflow(f\"<__{node.id}>\")\n        ret = self.visitRepetitionType(node)\n        self.on_leave_controlflow()\n        return ret\n",
